@@ -492,13 +492,20 @@ pub fn c13(seed: u64, thorough: bool) -> Scenario {
     let all = b.all_nodes();
     // A node misses batch broadcasts: its mempool links are cut for a while (batches to it are
     // cancelled once a quorum acknowledged them), possibly also towards the proposer afterwards.
+    // One node at a time (the others still form a quorum, so no view change is provoked).
     let k = b.r.range(0, 2);
+    let mut t_free = 100_000u64;
     for _ in 0..k {
+        if t_free + 300_000 >= load_end {
+            break;
+        }
         let j = b.r.below(b.sc.n);
-        let t0 = b.r.range(100_000, load_end);
+        let t0 = b.r.range(t_free, load_end);
         let len = b.r.range(200_000, 3_000_000);
+        let t1 = (t0 + len).min(load_end + 1_000_000);
         let peers = if b.r.chance(0.5) { all & !bit(j) } else { bit((j + 1 + b.r.below(b.sc.n - 1)) % b.sc.n) };
-        b.sc.net.rules.push(Rule { t0_us: t0, t1_us: (t0 + len).min(load_end + 1_000_000), src: bit(j), dst: peers & !bit(j), bidir: true, svc_mask: 1 << SVC_MEMPOOL, kind: RuleKind::Block, reply_only: false, label: "miss-batch".into() });
+        b.sc.net.rules.push(Rule { t0_us: t0, t1_us: t1, src: bit(j), dst: peers & !bit(j), bidir: true, svc_mask: 1 << SVC_MEMPOOL, kind: RuleKind::Block, reply_only: false, label: "miss-batch".into() });
+        t_free = t1 + 3_000_000;
     }
     if b.r.chance(0.4) {
         b.clock_jumps(2);
@@ -662,9 +669,130 @@ pub fn puppet(profile: &str, seed: u64, thorough: bool) -> Scenario {
         p_payload: *b.r.pick(&[0.0, 0.1, 0.3]),
         p_sync_probe: *b.r.pick(&[0.02, 0.08]),
         p_mute_ack: 0.05,
+        p_unsafe: *b.r.pick(&[0.0, 0.05, 0.15]),
         only_mutations: vec![],
     };
     b.sc.script = serde_json::to_value(&cfg).unwrap();
     b.tokio_knobs();
     b.finish()
+}
+
+// ---- C14: the reliable sender ----------------------------------------------------------------
+
+fn rs_scenario(profile: &str, seed: u64, ops: Vec<crate::rsender::RsOp>, tail_us: u64) -> Scenario {
+    let mut b = Builder::new(profile, seed);
+    b.sc.world = "rsender".into();
+    b.sc.n = 2;
+    b.sc.stakes = vec![1, 1];
+    b.sc.params = vec![NodeParams::default(); 2];
+    b.sc.net.base_lat_us = (1_000, 3_000);
+    b.sc.net.jitter_us = 500;
+    b.sc.net.connect_lat_us = (500, 2_000);
+    b.sc.script = serde_json::to_value(&crate::rsender::RsCfg { ops, tail_us }).unwrap();
+    b.sc
+}
+
+/// The enumerated fault sub-space: m <= 4 messages (burst or spaced), one break at every frame
+/// position in either direction (lost or just received), 0..3 refused reconnections, one
+/// cancellation at every position (right after hand-over or after the traffic has flowed).
+pub fn c14_cases() -> usize {
+    (1..=4usize).map(|m| 2 * (1 + 4 * m) * 4 * (1 + 2 * m)).sum()
+}
+
+pub fn c14_case(k: usize) -> Option<Scenario> {
+    use crate::net::Break;
+    use crate::rsender::RsOp;
+    let mut k = k;
+    for m in 1..=4usize {
+        let size = 2 * (1 + 4 * m) * 4 * (1 + 2 * m);
+        if k >= size {
+            k -= size;
+            continue;
+        }
+        let spaced = k % 2 == 1;
+        k /= 2;
+        let brk = k % (1 + 4 * m);
+        k /= 1 + 4 * m;
+        let refusals = (k % 4) as u32;
+        k /= 4;
+        let cancel = k;
+        let mut ops = Vec::new();
+        for id in 0..m as u32 {
+            ops.push(RsOp::Send { id });
+            if spaced {
+                ops.push(RsOp::Wait { us: 5_000 });
+            }
+        }
+        if cancel > 0 {
+            let j = ((cancel - 1) / 2) as u32;
+            if (cancel - 1) % 2 == 1 {
+                ops.push(RsOp::Wait { us: 50_000 });
+            }
+            ops.push(RsOp::Cancel { id: j });
+        }
+        let mut sc = rs_scenario("C14", 0xC14_0000 + (m * 100_000 + k) as u64, ops, 20_000_000);
+        if brk == 0 {
+            if refusals > 0 {
+                sc.net.refuse_first.push((0, 1, 0, refusals));
+            }
+        } else {
+            let x = brk - 1;
+            let fidx = (x / 4) as u32;
+            let to_listener = x % 4 < 2;
+            let at_delivered = x % 2 == 1;
+            sc.net.breaks.push(Break { dialer: 0, listener: 1, svc: 0, conn_idx: 0, to_listener, fidx, at_delivered, refuse_after: refusals, fired: false });
+        }
+        sc.seed = crate::rng::mix(&[0xC14, m as u64, spaced as u64, brk as u64, refusals as u64, cancel as u64]);
+        return Some(sc);
+    }
+    None
+}
+
+pub fn c14_random(seed: u64, thorough: bool) -> Scenario {
+    use crate::net::Break;
+    use crate::rsender::RsOp;
+    let mut r = Rng::new(seed);
+    let m = r.range(1, if thorough { 50 } else { 20 }) as u32;
+    let mut ops = Vec::new();
+    let mut live: Vec<u32> = Vec::new();
+    for id in 0..m {
+        ops.push(RsOp::Send { id });
+        live.push(id);
+        if r.chance(0.5) {
+            ops.push(RsOp::Wait { us: r.log_range(100, 300_000) });
+        }
+        if r.chance(0.15) && !live.is_empty() {
+            let j = live.remove(r.below(live.len()));
+            ops.push(RsOp::Cancel { id: j });
+        }
+    }
+    let mut sc = rs_scenario("C14", seed, ops, 150_000_000);
+    // Several breaks on successive connections, each followed by some refused attempts.
+    let nb = r.range(0, 6);
+    for c in 0..nb {
+        sc.net.breaks.push(Break {
+            dialer: 0,
+            listener: 1,
+            svc: 0,
+            conn_idx: c as u32,
+            to_listener: r.chance(0.5),
+            fidx: r.range(0, 6) as u32,
+            at_delivered: r.chance(0.5),
+            refuse_after: r.range(0, 4) as u32,
+            fired: false,
+        });
+    }
+    // The peer is down for a while (listener unreachable): partitions in time.
+    let np = r.range(0, 2);
+    for _ in 0..np {
+        let t0 = r.log_range(1_000, 2_000_000);
+        let len = r.log_range(10_000, 5_000_000);
+        sc.net.rules.push(Rule { t0_us: t0, t1_us: t0 + len, src: 1, dst: 2, bidir: true, svc_mask: 1, kind: RuleKind::Block, reply_only: false, label: "peer-down".into() });
+    }
+    if r.chance(0.5) {
+        sc.net.short_write_prob = *r.pick(&[0.05, 0.3]);
+        sc.net.split_read_prob = *r.pick(&[0.05, 0.3]);
+        sc.net.pending_write_prob = *r.pick(&[0.0, 0.1]);
+    }
+    sc
 }
